@@ -245,7 +245,29 @@ def step (s : St) (toks : List String) : St × String :=
       | .error .unsupported => (s, "unsupported")
       | .error _ => (s, "err res=ok")
     | _, _, _ => (s, "bad-op")
-  | "sstore" :: _ => (s, "ok")    -- storage slots through the real StateDB: the monitor compares what was written with what is read
+  | "sstore" :: _ =>
+    -- storage slots through the real StateDB: written as EncodeToBytes(TrimLeft(value, 0x00)), read back from a cold cache as the
+    -- content of Split: the model of state_object.updateTrie / GetCommittedState (known finding: leading zeros are lost)
+    match arg? toks "kv" with
+    | some kv =>
+      let slots : List (String × String) := (splitComma kv).filterMap fun p =>
+        match p.splitOn ":" with
+        | [k, v] => some (k, v)
+        | _ => none
+      let lastOf (k : String) : String := match (slots.reverse.find? (·.1 == k)) with | some (_, v) => v | none => ""
+      let trimZ (v : String) : String :=
+        match hexDecode? v with
+        | some bs => hexRaw (bs.dropWhile (· == 0))
+        | none => v
+      let rec firstBad (i : Nat) (l : List (String × String)) : Option String :=
+        match l with
+        | [] => none
+        | (k, _) :: r =>
+          let want := lastOf k
+          if trimZ want == want then firstBad (i + 1) r
+          else some s!"differ slot={i} wrote={want} cold={trimZ want} warm={want}"
+      (s, (firstBad 0 slots).getD "ok")
+    | none => (s, "bad-op")
   | "sobj" :: _ =>
     -- the account bytes in the state trie = the encoding of the Account value (stateObject.EncodeSER encodes c.data)
     match (arg? toks "ty").bind parseTyStr, (arg? toks "val").bind parseValStr with
